@@ -31,7 +31,7 @@
 (* A trace that is not accepted is MODEL-DRIFT of layer L4-stream (the         *)
 (* properties themselves are judged by TraceConn); acceptance is by the        *)
 (* highest event index reached (register 7).                                   *)
-EXTENDS ResetStream, Sequences, Json, IOUtils
+EXTENDS ResetStream, Sequences, Json, IOUtils, TLC
 
 Codec == INSTANCE ZvtCodec
 
